@@ -30,7 +30,7 @@ def main():
 
     def wrapper(step):
         enter_store(step)
-        key = (step["f"], step.get("kind", "function"), tuple(step.get("ignore") or ()), bool(step.get("compress")), step.get("frozen"), step.get("store", ""), bool(step.get("wrapped")))
+        key = (step["f"], step.get("kind", "function"), tuple(step.get("ignore") or ()), bool(step.get("compress")), step.get("frozen"), step.get("store", ""), bool(step.get("wrapped")), bool(step.get("redecorate")))
         if key not in wrappers:
             ck = (bool(step.get("compress")), step.get("store", ""))
             if ck not in mems:
@@ -38,13 +38,20 @@ def main():
             kind = step.get("kind", "function")
             if kind == "method":
                 target = getattr(sigmod, "INST_" + step["f"]).m
+            elif kind == "expr":
+                target = eval(step["f"], vars(sigmod))          # e.g. a bound method of a module-level instance
             elif kind == "partial":
-                target = functools.partial(getattr(sigmod, step["f"]), *eval(step.get("frozen", "()"), {"frozenset": frozenset}))
+                if ("frozen_obj", step.get("frozen")) not in wrappers:
+                    wrappers[("frozen_obj", step.get("frozen"))] = eval(step.get("frozen", "()"), {"frozenset": frozenset, "Opaque": getattr(sigmod, "Opaque", None)})
+                target = functools.partial(getattr(sigmod, step["f"]), *wrappers[("frozen_obj", step.get("frozen"))])
                 if step.get("wrapped"):
                     target = functools.update_wrapper(target, getattr(sigmod, step["f"]))
             else:
                 target = getattr(sigmod, step["f"])
-            wrappers[key] = (mems[ck].cache(target, ignore=list(step["ignore"])) if step.get("ignore") else mems[ck].cache(target), target)
+            w0 = mems[ck].cache(target, ignore=list(step["ignore"])) if step.get("ignore") else mems[ck].cache(target)
+            if step.get("redecorate"):
+                w0 = mems[ck].cache(w0)           # Memory.cache applied to an already cached function
+            wrappers[key] = (w0, target)
         return wrappers[key]
 
     env = {"frozenset": frozenset}
